@@ -1,7 +1,17 @@
 (* Properties/C16.v - Header sets are preserved and a requested header order is respected.
-   Only statements, `exact`, and Print Assumptions.  Model: Model/HeaderOrder.v. *)
-From ReqV Require Import Lib.Bytes Model.HeaderOrder Proofs.HeaderOrderProofs.
+   Only statements, `exact`, and Print Assumptions.
+   Model: Model/HeaderOrder.v (header.SortKeyValues, CanonicalMIMEHeaderKey) and
+   Model/HeaderCollect.v (the HTTP/1.1, HTTP/2 and HTTP/3 request-header collectors; a request
+   [q : creq] is what the protocol writer receives, [c_hdr q] its http.Header as an association
+   list whose order stands for Go's unspecified map iteration order).  The specification-side
+   definitions used below (h1_user_lines, h1_auto, h2_user_lines, h23_forbidden, rank_le,
+   pseudo_selections, pseudo_expected, ...) are at the top of Proofs/HeaderCollectProofs.v and
+   Proofs/HeaderWireProofs.v. *)
+From ReqV Require Import Lib.Bytes Model.HeaderOrder Model.HeaderCollect
+  Proofs.HeaderOrderProofs Proofs.HeaderCollectProofs Proofs.HeaderWireProofs.
 From Coq Require Import Permutation Sorting.Sorted.
+
+(* ===================== part 1: header.SortKeyValues ===================== *)
 
 (* specifying an order never adds, drops or duplicates a field *)
 Theorem C16_sort_is_permutation : forall kvs order,
@@ -84,6 +94,233 @@ Theorem C16_less_pinned_position_dependent :
     less_pinned order [y; x] 0 1 = true.
 Proof. exact less_pinned_position_dependent. Qed.
 
+(* ===================== part 2: the three collectors ===================== *)
+
+(* ---- every header exactly once per value (with or without an order list) ---- *)
+
+(* HTTP/1.1: for EVERY request the wire lines are, as a multiset, the automatic lines (Host,
+   User-Agent default/override/blank, Content-Length, Accept-Encoding: gzip) plus, for every entry
+   of the header map that is not a writer-handled/bookkeeping key or an invalid name, one line per
+   value under the key exactly as spelled in the map. *)
+Theorem C16_h1_each_value_exactly_once : forall q,
+  Permutation (h1_lines q) (h1_auto q ++ flat_map h1_user_lines (c_hdr q)).
+Proof. exact h1_each_value_exactly_once. Qed.
+Print Assumptions C16_h1_each_value_exactly_once.
+
+(* HTTP/2: the four pseudo-header fields, what every map entry contributes (h2_user_lines), and the
+   automatic tail (content-length, accept-encoding: gzip, default user-agent), names lower-cased *)
+Theorem C16_h2_each_value_exactly_once : forall q,
+  Permutation (h2_lines q)
+    (lower_lines (flatten (pseudo_kvs q) ++ flat_map h2_user_lines (c_hdr q) ++ flatten (auto_tail q))).
+Proof. exact h2_each_value_exactly_once. Qed.
+Print Assumptions C16_h2_each_value_exactly_once.
+
+Theorem C16_h3_each_value_exactly_once : forall q,
+  Permutation (h3_lines q)
+    (lower_lines (flatten (pseudo_kvs q) ++ flat_map h3_user_lines (c_hdr q) ++ flatten (auto_tail q))).
+Proof. exact h3_each_value_exactly_once. Qed.
+Print Assumptions C16_h3_each_value_exactly_once.
+
+(* what one map entry (k, vs) contributes on HTTP/2 and HTTP/3: an ordinary field all its values
+   verbatim; a forbidden/bookkeeping name nothing; User-Agent its first value (none when blank);
+   Cookie (HTTP/2) its cookie pairs *)
+Theorem C16_h2_ordinary_entry : forall k vs,
+  is_excluded k = false -> is_ua k = false -> equal_fold k (bs "cookie") = false ->
+  h2_user_lines (k, vs) = map (fun v => (k, v)) vs.
+Proof. exact h2_user_lines_ordinary. Qed.
+Print Assumptions C16_h2_ordinary_entry.
+
+Theorem C16_h3_ordinary_entry : forall k vs,
+  is_excluded k = false -> is_ua k = false -> h3_user_lines (k, vs) = map (fun v => (k, v)) vs.
+Proof. exact h3_user_lines_ordinary. Qed.
+Print Assumptions C16_h3_ordinary_entry.
+
+Theorem C16_h23_excluded_entry : forall k vs,
+  is_excluded k = true -> h2_user_lines (k, vs) = [] /\ h3_user_lines (k, vs) = [].
+Proof. exact h23_user_lines_excluded. Qed.
+Print Assumptions C16_h23_excluded_entry.
+
+Theorem C16_h23_user_agent_entry : forall k vs,
+  is_excluded k = false -> is_ua k = true ->
+  h2_user_lines (k, vs) = h3_user_lines (k, vs) /\
+  h2_user_lines (k, vs) = match vs with v :: _ => if is_nil v then [] else [(k, v)] | [] => [] end.
+Proof. exact h23_user_lines_ua. Qed.
+Print Assumptions C16_h23_user_agent_entry.
+
+Theorem C16_h2_cookie_entry : forall k vs,
+  is_excluded k = false -> is_ua k = false -> equal_fold k (bs "cookie") = true ->
+  h2_user_lines (k, vs) = map (fun c => (bs "cookie", c)) (flat_map crumbs vs).
+Proof. exact h2_user_lines_cookie. Qed.
+Print Assumptions C16_h2_cookie_entry.
+
+(* the Cookie header Request.AddCookie builds ("p1; p2; ...; pn") is split into exactly p1..pn *)
+Theorem C16_cookie_pairs_preserved : forall ps,
+  forallb crumb_ok ps = true -> ps <> [] -> crumbs (join_with semi_sp ps) = ps.
+Proof. exact crumbs_of_cookie_header. Qed.
+Print Assumptions C16_cookie_pairs_preserved.
+
+(* ---- HTTP/1.1 keeps the caller's spelling and the exact value ---- *)
+Theorem C16_h1_spelling_preserved : forall q k vs v,
+  In (k, vs) (c_hdr q) -> In v vs ->
+  mem_bytes k h1_exclude = false -> valid_field_name k = true ->
+  In (k, sanitize v) (h1_lines q).
+Proof. exact h1_spelling_preserved. Qed.
+Print Assumptions C16_h1_spelling_preserved.
+
+Theorem C16_h1_value_exact : forall v, clean_value v = true -> sanitize v = v.
+Proof. exact sanitize_clean. Qed.
+Print Assumptions C16_h1_value_exact.
+
+(* ---- bookkeeping keys never on the wire; forbidden fields omitted, whatever their spelling ---- *)
+Theorem C16_h1_bookkeeping_never_emitted : forall q l,
+  In l (h1_lines q) -> fst l <> header_order_key /\ fst l <> pseudo_header_order_key.
+Proof. exact h1_bookkeeping_never_emitted. Qed.
+Print Assumptions C16_h1_bookkeeping_never_emitted.
+
+(* h23_forbidden = connection, proxy-connection, keep-alive, transfer-encoding, upgrade, host and
+   the two bookkeeping keys (the latter read from the Go source by gosync) *)
+Theorem C16_h2_forbidden_never_emitted : forall q l,
+  In l (h2_lines q) -> mem_bytes (fst l) h23_forbidden = false.
+Proof. exact h2_forbidden_never_emitted. Qed.
+Print Assumptions C16_h2_forbidden_never_emitted.
+
+Theorem C16_h3_forbidden_never_emitted : forall q l,
+  In l (h3_lines q) -> mem_bytes (fst l) h23_forbidden = false.
+Proof. exact h3_forbidden_never_emitted. Qed.
+Print Assumptions C16_h3_forbidden_never_emitted.
+
+Theorem C16_forbidden_any_spelling : forall k,
+  In (to_lower k) h23_forbidden -> is_excluded k = true.
+Proof. exact forbidden_excluded_any_spelling. Qed.
+Print Assumptions C16_forbidden_any_spelling.
+
+(* ---- a requested order is respected on the wire ---- *)
+
+(* with an order list the lines on the wire are sorted by rank in that list *)
+Theorem C16_h1_wire_sorted : forall q,
+  is_nil (order_list (c_hdr q)) = false ->
+  StronglySorted (rank_le (order_list (c_hdr q))) (h1_lines q).
+Proof. exact h1_wire_sorted. Qed.
+Print Assumptions C16_h1_wire_sorted.
+
+(* names_are_tokens is what validateHeaders enforces before anything is written *)
+Theorem C16_h2_wire_sorted : forall q,
+  names_are_tokens (c_hdr q) -> is_nil (order_list (c_hdr q)) = false ->
+  StronglySorted (rank_le (order_list (c_hdr q))) (lower_lines (h2_regular_lines q)).
+Proof. exact h2_wire_sorted. Qed.
+Print Assumptions C16_h2_wire_sorted.
+
+Theorem C16_h3_wire_sorted : forall q,
+  names_are_tokens (c_hdr q) -> is_nil (order_list (c_hdr q)) = false ->
+  StronglySorted (rank_le (order_list (c_hdr q))) (lower_lines (h3_regular_lines q)).
+Proof. exact h3_wire_sorted. Qed.
+Print Assumptions C16_h3_wire_sorted.
+
+(* ... hence listed fields are in list order, whatever else is present (instantiate [ls] with any of
+   the three sorted wire lists above) *)
+Theorem C16_lines_listed_in_listed_order : forall order ls i j oi oj,
+  StronglySorted (rank_le order) ls ->
+  i < j -> nth_error order i = Some oi -> nth_error order j = Some oj ->
+  (forall m o', i < m -> nth_error order m = Some o' -> canonical_key o' <> canonical_key oi) ->
+  (forall m o', j < m -> nth_error order m = Some o' -> canonical_key o' <> canonical_key oj) ->
+  forall p q a b,
+  nth_error ls p = Some a -> nth_error ls q = Some b ->
+  canonical_key (fst a) = canonical_key oi -> canonical_key (fst b) = canonical_key oj ->
+  p < q.
+Proof. exact lines_listed_in_listed_order. Qed.
+Print Assumptions C16_lines_listed_in_listed_order.
+
+Theorem C16_lines_listed_before_unlisted : forall order ls p q a b,
+  StronglySorted (rank_le order) ls ->
+  nth_error ls p = Some a -> nth_error ls q = Some b ->
+  listed order (fst a) = true -> listed order (fst b) = false -> p < q.
+Proof. exact lines_listed_before_unlisted. Qed.
+Print Assumptions C16_lines_listed_before_unlisted.
+
+(* ---- the pseudo-header block ---- *)
+
+(* the wire list = pseudo-header block ++ regular block; the first holds only pseudo-header
+   fields, the second none *)
+Theorem C16_h2_pseudo_block_first : forall q,
+  h2_lines q = lower_lines (pseudo_lines q) ++ lower_lines (h2_regular_lines q) /\
+  (forall l, In l (lower_lines (pseudo_lines q)) -> is_pseudo l = true) /\
+  (names_are_tokens (c_hdr q) -> forall l, In l (lower_lines (h2_regular_lines q)) -> is_pseudo l = false).
+Proof.
+  exact (fun q => conj (h2_lines_split q) (conj (pseudo_lines_all_pseudo q)
+          (fun H l => h2_regular_not_pseudo q l H))).
+Qed.
+Print Assumptions C16_h2_pseudo_block_first.
+
+Theorem C16_h3_pseudo_block_first : forall q,
+  h3_lines q = lower_lines (pseudo_lines q) ++ lower_lines (h3_regular_lines q) /\
+  (forall l, In l (lower_lines (pseudo_lines q)) -> is_pseudo l = true) /\
+  (names_are_tokens (c_hdr q) -> forall l, In l (lower_lines (h3_regular_lines q)) -> is_pseudo l = false).
+Proof.
+  exact (fun q => conj (h3_lines_split q) (conj (pseudo_lines_all_pseudo q)
+          (fun H l => h3_regular_not_pseudo q l H))).
+Qed.
+Print Assumptions C16_h3_pseudo_block_first.
+
+(* whatever the pseudo-header order list: the four fields, each once, with their values *)
+Theorem C16_pseudo_block_is_the_four : forall q,
+  Permutation (pseudo_lines q)
+    [(bs ":authority", c_host q); (bs ":method", c_method q); (bs ":path", c_path q); (bs ":scheme", c_scheme q)].
+Proof. exact pseudo_block_is_the_four. Qed.
+Print Assumptions C16_pseudo_block_is_the_four.
+
+(* pseudo_selections: the 65 duplicate-free lists over the four names (24 of them permutations) *)
+Theorem C16_pseudo_selections_facts :
+  length pseudo_selections = 65 /\
+  length (filter (fun p => length p =? 4) pseudo_selections) = 24 /\
+  forallb (fun p => forallb (fun n => mem_bytes n pseudo4) p) pseudo_selections = true.
+Proof. exact pseudo_selections_facts. Qed.
+Print Assumptions C16_pseudo_selections_facts.
+
+(* for every request and every pseudo-header order that is - in any letter case - one of the 24
+   permutations or one of the 40 partial lists: the block is the listed names in list order, then
+   the remaining ones in the default order *)
+Theorem C16_pseudo_order_respected : forall q,
+  let po := porder_list (c_hdr q) in
+  is_nil po = false -> In (map to_lower po) pseudo_selections ->
+  map fst (pseudo_lines q) = pseudo_expected (map to_lower po).
+Proof. exact pseudo_order_respected. Qed.
+Print Assumptions C16_pseudo_order_respected.
+
+Theorem C16_pseudo_default : forall q,
+  is_nil (porder_list (c_hdr q)) = true -> map fst (pseudo_lines q) = pseudo4.
+Proof. exact pseudo_default. Qed.
+Print Assumptions C16_pseudo_default.
+
+(* ---- independence of Go's map iteration order ---- *)
+Theorem C16_h1_order_independent_of_map_iteration : forall q h',
+  NoDup (map fst (c_hdr q)) -> Permutation (c_hdr q) h' ->
+  Permutation (h1_lines (set_hdr q h')) (h1_lines q) /\
+  (is_nil (order_list (c_hdr q)) = false ->
+   map (line_rank (order_list (c_hdr q))) (h1_lines (set_hdr q h')) =
+   map (line_rank (order_list (c_hdr q))) (h1_lines q)).
+Proof. exact h1_order_independent_of_map_iteration. Qed.
+Print Assumptions C16_h1_order_independent_of_map_iteration.
+
+Theorem C16_h2_order_independent_of_map_iteration : forall q h',
+  NoDup (map fst (c_hdr q)) -> Permutation (c_hdr q) h' ->
+  pseudo_lines (set_hdr q h') = pseudo_lines q /\
+  Permutation (h2_lines (set_hdr q h')) (h2_lines q) /\
+  (is_nil (order_list (c_hdr q)) = false ->
+   map (line_rank (order_list (c_hdr q))) (h2_regular_lines (set_hdr q h')) =
+   map (line_rank (order_list (c_hdr q))) (h2_regular_lines q)).
+Proof. exact h2_order_independent_of_map_iteration. Qed.
+Print Assumptions C16_h2_order_independent_of_map_iteration.
+
+Theorem C16_h3_order_independent_of_map_iteration : forall q h',
+  NoDup (map fst (c_hdr q)) -> Permutation (c_hdr q) h' ->
+  pseudo_lines (set_hdr q h') = pseudo_lines q /\
+  Permutation (h3_lines (set_hdr q h')) (h3_lines q) /\
+  (is_nil (order_list (c_hdr q)) = false ->
+   map (line_rank (order_list (c_hdr q))) (h3_regular_lines (set_hdr q h')) =
+   map (line_rank (order_list (c_hdr q))) (h3_regular_lines q)).
+Proof. exact h3_order_independent_of_map_iteration. Qed.
+Print Assumptions C16_h3_order_independent_of_map_iteration.
+
 Example C16_nonvacuous :
   let order := [bs "x-b"; bs "COOKIE"; bs "x-a"; bs "x-b"] in
   let kvs := [(bs "Z", [bs "0"]); (bs "X-A", [bs "1"]); (bs "cookie", [bs "2"]);
@@ -93,4 +330,41 @@ Example C16_nonvacuous :
 Proof.
   split; [vm_compute; reflexivity|].
   repeat constructor; cbn; intuition discriminate.
+Qed.
+
+(* a request with an order list, a pseudo-header order in capitals, a forbidden field spelled in
+   lower case, names differing only in case, a multi-valued field and a cookie header: the
+   hypotheses of the collector theorems hold and the three wire lists are what one expects *)
+Definition c16_example : creq :=
+  mk_creq (bs "POST") (bs "example.com") (bs "/p?x=1") (bs "https")
+    [(bs "x-b", [bs "1"; bs "2"]); (bs "X-B", [bs "3"]); (bs "connection", [bs "keep-alive"]);
+     (bs "Cookie", [bs "a=1; b=2"]); (bs "X-A", [bs "4"]);
+     (bs "__header_order__", [bs "X-A"; bs "cookie"; bs "x-b"]);
+     (bs "__pseudo_header_order__", [bs ":SCHEME"; bs ":path"])] 3%Z true.
+
+Example C16_collectors_nonvacuous :
+  NoDup (map fst (c_hdr c16_example)) /\ names_are_tokens (c_hdr c16_example) /\
+  is_nil (order_list (c_hdr c16_example)) = false /\
+  In (map to_lower (porder_list (c_hdr c16_example))) pseudo_selections /\
+  h1_lines c16_example =
+    [(bs "X-A", bs "4"); (bs "Cookie", bs "a=1; b=2"); (bs "x-b", bs "1"); (bs "x-b", bs "2"); (bs "X-B", bs "3");
+     (bs "Host", bs "example.com"); (bs "User-Agent", default_user_agent); (bs "Content-Length", bs "3");
+     (bs "connection", bs "keep-alive"); (bs "Accept-Encoding", bs "gzip")] /\
+  h2_lines c16_example =
+    [(bs ":scheme", bs "https"); (bs ":path", bs "/p?x=1"); (bs ":authority", bs "example.com"); (bs ":method", bs "POST");
+     (bs "x-a", bs "4"); (bs "cookie", bs "a=1"); (bs "cookie", bs "b=2");
+     (bs "x-b", bs "1"); (bs "x-b", bs "2"); (bs "x-b", bs "3");
+     (bs "content-length", bs "3"); (bs "accept-encoding", bs "gzip"); (bs "user-agent", default_user_agent)] /\
+  h3_lines c16_example =
+    [(bs ":scheme", bs "https"); (bs ":path", bs "/p?x=1"); (bs ":authority", bs "example.com"); (bs ":method", bs "POST");
+     (bs "x-a", bs "4"); (bs "cookie", bs "a=1; b=2");
+     (bs "x-b", bs "1"); (bs "x-b", bs "2"); (bs "x-b", bs "3");
+     (bs "content-length", bs "3"); (bs "accept-encoding", bs "gzip"); (bs "user-agent", default_user_agent)].
+Proof.
+  split; [apply (NoDup_map_inv (fun k => k)); rewrite map_id;
+          apply (proj1 (nodupb_spec _)); vm_compute; reflexivity|].
+  split; [intros x Hx; cbn in Hx; repeat (destruct Hx as [<-|Hx]; [vm_compute; reflexivity|]); destruct Hx|].
+  split; [vm_compute; reflexivity|].
+  split; [vm_compute; tauto|].
+  repeat split; vm_compute; reflexivity.
 Qed.
